@@ -273,7 +273,124 @@ fn check_msgs(got: &[RMsg], exp: &[usize], log: &Log, first_pos: usize) -> Optio
     None
 }
 
+/// a one pass session: open with collect=one_pass_streams (starts paused), create 1-3 one_pass streams, resume; every
+/// stream must receive exactly the positions [start, end) of its filtered sequence although the server drains the
+/// messages after every round
+fn one_pass_session(rep: &mut Report, rng: &mut Rng, srv: &mut Server, logs: &[Log], slow_server: bool) -> Option<(String, String, serde_json::Value)> {
+    let log = if slow_server || rng.chance(1, 2) { &logs[1] } else { &logs[2] };
+    let n = log.msgs.len();
+    let mut cl = match Client::connect(srv.port) {
+        Some(c) => c,
+        None => {
+            rep.inc("inconclusive_connect_failed");
+            return None;
+        }
+    };
+    let mut history: Vec<String> = vec![];
+    let rp = |history: &Vec<String>| json!({"kind":"c16-bin-one-pass","log_messages": n, "history": history});
+    let mut send = |cl: &mut Client, s: String, history: &mut Vec<String>| -> (Option<String>, Vec<Frame>) {
+        history.push(s.chars().take(300).collect());
+        if !cl.send(&s) {
+            return (None, vec![Frame::Closed]);
+        }
+        cl.wait_reply(Duration::from_secs(60))
+    };
+    let (r, _) = send(&mut cl, format!("open {}", json!({"files":[log.path], "collect": "one_pass_streams"})), &mut history);
+    if !r.as_deref().map_or(false, |r| r.starts_with("ok:")) {
+        return Some(("bin:open-failed".into(), format!("{:?} stderr {}", r, srv.stderr_tail()), rp(&history)));
+    }
+    let mut streams: Vec<(u32, Vec<usize>, usize)> = vec![]; // id, expected file positions, window start
+    let mut got: std::collections::HashMap<u32, Vec<RMsg>> = Default::default();
+    for _ in 0..1 + rng.usize_below(3) {
+        let nf = rng.usize_below(3);
+        let fs: Vec<AbsFilter> = (0..nf)
+            .map(|_| {
+                let k = *rng.pick(&[0u8, 0, 1, 3]);
+                let mut f = gen_filter(rng, k);
+                f.lifecycles = None;
+                f
+            })
+            .collect();
+        let filtered: Vec<usize> = (0..n).filter(|k| spec_keep_set(&fs, &log.msgs[*k].0, &log.msgs[*k].1)).collect();
+        let filters_active = fs.iter().any(|f| f.enabled && f.kind != 2);
+        let stream_pos: Vec<usize> = if filters_active { filtered } else { (0..n).collect() };
+        let (w0, w1) = match rng.below(4) {
+            0 => (0, stream_pos.len() + 10),
+            1 => (0, 1 + rng.usize_below(30)),
+            _ => {
+                let a = rng.usize_below(stream_pos.len() + 1);
+                (a, a + 1 + rng.usize_below(300))
+            }
+        };
+        let (r, pre) = send(&mut cl, format!("stream {}", json!({"one_pass": true, "window":[w0, w1], "binary": true, "filters": fs.iter().map(to_json_value).collect::<Vec<_>>()})), &mut history);
+        let reply = match r {
+            Some(r) if r.starts_with("ok:") => r,
+            other => return Some(("bin:one-pass-stream-rejected".into(), format!("{:?}", other), rp(&history))),
+        };
+        let id = match id_of(&reply) {
+            Some(i) => i,
+            None => return Some(("bin:reply-without-id".into(), reply, rp(&history))),
+        };
+        if pre.iter().any(|f| matches!(f, Frame::DltMsgs(i, _) if *i == id)) {
+            return Some(("bin:data-before-reply".into(), format!("DltMsgs for stream {} arrived before its ok: reply", id), rp(&history)));
+        }
+        let exp: Vec<usize> = stream_pos.iter().copied().skip(w0).take(w1.saturating_sub(w0)).collect();
+        streams.push((id, exp, w0));
+    }
+    let (r, pre) = send(&mut cl, "resume".to_string(), &mut history);
+    if !r.as_deref().map_or(false, |r| r.starts_with("ok:")) {
+        return Some(("bin:resume-failed".into(), format!("{:?}", r), rp(&history)));
+    }
+    let mut take = |f: Frame, got: &mut std::collections::HashMap<u32, Vec<RMsg>>| {
+        if let Frame::DltMsgs(i, v) = f {
+            got.entry(i).or_default().extend(v);
+        }
+    };
+    for f in pre {
+        take(f, &mut got);
+    }
+    let t0 = Instant::now();
+    let mut complete_since: Option<Instant> = None;
+    while t0.elapsed() < Duration::from_secs(60) {
+        match cl.poll() {
+            Some(Frame::Closed) => break,
+            Some(f) => take(f, &mut got),
+            None => {}
+        }
+        let all_there = streams.iter().all(|(id, exp, _)| got.get(id).map_or(0, |v| v.len()) >= exp.len());
+        if (cl.file_msgs_seen as usize) >= n && all_there {
+            // a little longer for surplus messages
+            if complete_since.get_or_insert_with(Instant::now).elapsed() > Duration::from_millis(300) {
+                break;
+            }
+        } else if (cl.file_msgs_seen as usize) >= n && complete_since.get_or_insert_with(Instant::now).elapsed() > Duration::from_secs(5) {
+            break; // everything was announced 5 s ago: nothing more will come
+        }
+    }
+    if (cl.file_msgs_seen as usize) < n {
+        rep.inc("inconclusive_file_not_parsed_in_time");
+        return None;
+    }
+    for (id, exp, w0) in &streams {
+        let g = got.get(id).cloned().unwrap_or_default();
+        rep.add("messages_compared_field_by_field", g.len() as u64);
+        if let Some(d) = check_msgs(&g, exp, log, *w0) {
+            return Some(("bin:one-pass-stream-window".into(), format!("one pass stream {} (window start {}): {}", id, w0, d), rp(&history)));
+        }
+        rep.inc("one_pass_streams_checked");
+    }
+    let (r, _) = send(&mut cl, "close".to_string(), &mut history);
+    if !r.as_deref().map_or(false, |r| r.starts_with("ok:")) {
+        return Some(("bin:close-failed".into(), format!("{:?}", r), rp(&history)));
+    }
+    None
+}
+
 fn bin_session(rep: &mut Report, rng: &mut Rng, srv: &mut Server, logs: &[Log], slow_server: bool) -> Option<(String, String, serde_json::Value)> {
+    if rng.chance(1, 6) {
+        rep.inc("one_pass_sessions");
+        return one_pass_session(rep, rng, srv, logs, slow_server);
+    }
     let log = match rng.below(10) {
         0 | 1 if !slow_server => &logs[2],
         9 | 8 => &logs[3],
